@@ -54,7 +54,7 @@ Definition fm_out (o : option (list (nat * (list (list nat) * list nat)))) := o.
 """
 
 Q = 4              # coordinates in quarters
-NP_DT = {"Float64": np.float64, "Float32": np.float32, "Int32": np.int32, "Int64": np.int64, "UInt8": np.uint8}
+NP_DT = {"Float64": np.float64, "Float32": np.float32, "Int32": np.int32, "Int64": np.int64, "UInt8": np.uint8, "UInt16": np.uint16}
 PIX2VTK = {2: [0, 1], 4: [0, 1, 3, 2], 8: [0, 1, 3, 2, 4, 5, 7, 6]}
 MESHIO_TYPE = {1: "vertex", 3: "line", 9: "quad", 12: "hexahedron", 5: "triangle"}
 VTK_OF_MESHIO = {v: k for k, v in MESHIO_TYPE.items()}
@@ -95,8 +95,10 @@ def gen_grid(rng, force_dirs=None):
 
 
 def _field(rng, name, n):
-    vt = rng.choice(["Float64", "Float64", "Float32", "Int32", "Int64"])
+    vt = rng.choice(["Float64", "Float64", "Float32", "Int32", "Int64", "UInt16"])
     nc = rng.choice([1, 1, 3])
+    if vt == "UInt16":      # values in the upper half of the range (a signed reading of the bytes would be negative)
+        return [name, vt, nc, [rng.choice([40000, 65535, 32768, 7]) for _ in range(n * nc)]]
     return [name, vt, nc, [rng.randint(-60, 60) for _ in range(n * nc)]]      # float value = int / 2
 
 
@@ -267,6 +269,8 @@ def reps_of(c):
         r.append("vti")
     if c["kind"] == "rect" or (c["kind"] == "image" and c["D"] is None):
         r.append("vtr")
+    if any(f[1] == "UInt16" for f in c["pf"] + (c["cf"] or [])):
+        r.remove("mio-xdmf")          # (meshio's xdmf writer has no 16-bit unsigned type)
     return r
 
 
@@ -428,6 +432,8 @@ def model_exprs(c):
 # ================================================================================================
 def gen_hybrid(rng):
     c = gen_grid(rng)
+    while any(f[1] == "UInt16" for f in c["pf"] + (c["cf"] or [])):      # (the hybrid stream writes every case through meshio's xdmf)
+        c = gen_grid(rng)
     c["D"] = c["D"] if c["kind"] == "image" else None
     cells = truth_cells(c)
     ncorn = len(cells[0])
